@@ -91,6 +91,14 @@ func NewRun(prop, tier, config, tags string, seed int64) *Run {
 // N picks a size by tier.
 func (r *Run) N(quick, thorough int) int {
 	if r.Tier == "thorough" {
+		// the race configuration of the sequential properties adds checkptr and the race
+		// runtime (8-15x slower), not new inputs: an eighth of the volume is enough
+		if strings.HasPrefix(r.Config, "race") && r.Prop != "C20" && thorough/8 > quick {
+			return thorough / 8
+		}
+		if r.Config == "386" && thorough/3 > quick {
+			return thorough / 3 // math/big of the reference model is several times slower on 32 bit
+		}
 		return thorough
 	}
 	return quick
